@@ -1654,6 +1654,7 @@ class Food(UnitConversions):
         """
 
         # Check if the current food object is a monthly list
+        assert self.units == other.units
         if self.is_list_monthly():
             # Validate the list
             self.validate_if_list()
@@ -1681,7 +1682,6 @@ class Food(UnitConversions):
             )
 
         # If the current food object is not a monthly list, assert that the units are the same
-        assert self.units == other.units
 
         # Check if fat is included in the conversions
         if self.conversions.include_fat:
